@@ -234,11 +234,16 @@ pub struct SessionPlan {
     /// store config changes for this session (validate_data / ignore_corrupted flips)
     pub validate_data: Option<bool>,
     pub ignore_corrupted: Option<bool>,
+    /// a second bloom configuration: every other (re)opening of the storage inside this session uses it
+    #[serde(default)]
+    pub bloom_alt: Option<BloomCfg>,
+    #[serde(default)]
+    pub bloom_use_alt: bool,
 }
 
 impl SessionPlan {
     pub fn sequential(ops: Vec<Op>) -> Self {
-        SessionPlan { lazy_init: false, pre: vec![], clients: vec![ops], end: SessionEnd::Close, validate_data: None, ignore_corrupted: None }
+        SessionPlan { lazy_init: false, pre: vec![], clients: vec![ops], end: SessionEnd::Close, validate_data: None, ignore_corrupted: None, bloom_alt: None, bloom_use_alt: false }
     }
 }
 
